@@ -56,6 +56,10 @@ pub trait Family: 'static + Sized {
     fn on_spawn(_objs: &Self::Objs, _child: usize, _thread: &shuttle::thread::Thread) {}
     /// Called by every thread when it starts running (inside the Shuttle task).
     fn on_start(_objs: &Self::Objs, _t: usize) {}
+    /// Name to give thread `t` through `thread::Builder` (None = plain `thread::spawn`).
+    fn thread_name(_cfg: &Self::Cfg, _t: usize) -> Option<String> {
+        None
+    }
     /// Execute the real operation (inside a Shuttle task).
     fn exec(objs: &Self::Objs, l: &mut Self::Locals, t: usize, op: &Self::Op) -> Self::Res;
     /// Called when a thread's program is finished. Implementations must *leak* guards the thread
@@ -63,6 +67,11 @@ pub trait Family: 'static + Sized {
     /// operation; plain containers are dropped normally.
     fn end_thread(_objs: &Self::Objs, l: Self::Locals, _t: usize) {
         drop(l);
+    }
+    /// Family-specific monitor over one finished execution (log + auxiliary events such as
+    /// destructor runs): returns (culprit, description) of a violation.
+    fn monitor(_p: &Program<Self>, _rec: &ExecRecord<Self::Res>) -> Option<(String, String)> {
+        None
     }
     fn m_init(cfg: &Self::Cfg, nthreads: usize) -> Self::M;
     /// All micro-transitions thread `t` can take for `op` in `phase`. Empty = blocked.
@@ -73,6 +82,10 @@ pub trait Family: 'static + Sized {
 pub enum GOp<O> {
     Spawn(usize),
     Join(usize),
+    /// `thread::scope(|s| { spawn these scoped threads; <ops up to the matching ScopeEnd> })`
+    ScopeBegin(Vec<usize>),
+    /// end of the scope body: returns once every scoped thread has finished
+    ScopeEnd,
     Op(O),
 }
 
@@ -124,6 +137,35 @@ impl<F: Family> Program<F> {
 // Implementation interpreter
 // ---------------------------------------------------------------------------------------------
 
+thread_local! {
+    /// Auxiliary events of the current execution (destructors, drop counters, ...), in real-time
+    /// order, each with the decision stamp and the length of the main log at that moment.
+    pub static AUX: RefCell<Vec<AuxEntry>> = const { RefCell::new(Vec::new()) };
+    static MAIN_LOG_LEN: std::cell::Cell<usize> = const { std::cell::Cell::new(0) };
+}
+
+#[derive(Clone, Debug, PartialEq, Eq)]
+pub struct AuxEntry {
+    pub stamp: usize,
+    /// number of main-log entries written before this event
+    pub after: usize,
+    pub task: usize,
+    pub what: String,
+}
+
+/// Record an auxiliary event (callable from destructors; no scheduling point).
+pub fn log_aux(what: String) {
+    let task: usize = shuttle::current::get_current_task().map(|t| t.into()).unwrap_or(usize::MAX);
+    AUX.with(|a| {
+        a.borrow_mut().push(AuxEntry {
+            stamp: crate::explore::decision_stamp(),
+            after: MAIN_LOG_LEN.with(|l| l.get()),
+            task,
+            what,
+        })
+    });
+}
+
 #[derive(Clone, Debug, PartialEq, Eq)]
 pub enum EKind<R> {
     Start,
@@ -131,6 +173,8 @@ pub enum EKind<R> {
     Ret(GRes<R>),
     /// value attached to a Spawn return: the child's task id as reported by the JoinHandle
     ChildTask(usize),
+    /// scoped spawn: (child thread index, task id)
+    ChildTask2(usize, usize),
     End,
 }
 
@@ -147,53 +191,127 @@ pub struct Entry<R> {
 struct Ctx<F: Family> {
     prog: Arc<SS<Program<F>>>,
     objs: F::Objs,
-    handles: RefCell<Vec<Option<shuttle::thread::JoinHandle<()>>>>,
+    handles: RefCell<Vec<Option<shuttle::thread::JoinHandle<u32>>>>,
     /// one Vec per execution; the current execution's is the last
     log: Logs<F::Res>,
 }
 
-fn run_thread<F: Family>(ctx: Arc<SS<Ctx<F>>>, t: usize) {
+/// Value returned by thread `t`'s closure (checked by the joiner).
+pub fn thread_ret(t: usize) -> u32 {
+    1000 + t as u32
+}
+
+fn run_thread<F: Family>(ctx: Arc<SS<Ctx<F>>>, t: usize) -> u32 {
     let c = &ctx.0;
     let me: usize = shuttle::current::me().into();
     let push = |op: usize, kind: EKind<F::Res>| {
-        c.log.borrow_mut().last_mut().expect("log of current execution").push(Entry {
+        let mut l = c.log.borrow_mut();
+        let cur = l.last_mut().expect("log of current execution");
+        cur.push(Entry {
             stamp: crate::explore::decision_stamp(),
             thread: t,
             task: me,
             op,
             kind,
-        })
+        });
+        MAIN_LOG_LEN.with(|n| n.set(cur.len()));
     };
     push(0, EKind::Start);
     F::on_start(&c.objs, t);
     let mut locals = F::new_locals(&c.prog.0.cfg, t);
     let ops = &c.prog.0.threads[t];
-    for (i, op) in ops.iter().enumerate() {
+    run_ops::<F>(&ctx, t, &mut locals, 0, ops.len(), &push);
+    push(ops.len(), EKind::End);
+    F::end_thread(&c.objs, locals, t);
+    thread_ret(t)
+}
+
+/// Run ops[from..to) of thread `t`; returns the index after the last op executed.
+fn run_ops<F: Family>(
+    ctx: &Arc<SS<Ctx<F>>>,
+    t: usize,
+    locals: &mut F::Locals,
+    from: usize,
+    to: usize,
+    push: &dyn Fn(usize, EKind<F::Res>),
+) {
+    let c = &ctx.0;
+    let ops = &c.prog.0.threads[t];
+    let mut i = from;
+    while i < to {
+        let op = &ops[i];
         push(i, EKind::Call);
-        let r = match op {
+        match op {
             GOp::Spawn(ch) => {
                 let ctx2 = ctx.clone();
                 let ch = *ch;
-                let h = shuttle::thread::spawn(move || {
+                let body = move || {
                     let ctx2 = ctx2;
                     run_thread::<F>(ctx2, ch)
-                });
+                };
+                let h = match F::thread_name(&c.prog.0.cfg, ch) {
+                    Some(name) => shuttle::thread::Builder::new().name(name).spawn(body).expect("Builder::spawn"),
+                    None => shuttle::thread::spawn(body),
+                };
                 let tid: usize = h.thread().id().into();
                 F::on_spawn(&c.objs, ch, h.thread());
                 c.handles.borrow_mut()[ch] = Some(h);
                 push(i, EKind::ChildTask(tid));
-                GRes::Spawned
+                push(i, EKind::Ret(GRes::Spawned));
+                i += 1;
             }
             GOp::Join(ch) => {
                 let h = c.handles.borrow_mut()[*ch].take().expect("join without handle");
-                GRes::Joined(h.join().is_ok())
+                let r = GRes::Joined(h.join().ok() == Some(thread_ret(*ch)));
+                push(i, EKind::Ret(r));
+                i += 1;
             }
-            GOp::Op(o) => GRes::R(F::exec(&c.objs, &mut locals, t, o)),
-        };
-        push(i, EKind::Ret(r));
+            GOp::Op(o) => {
+                let r = GRes::R(F::exec(&c.objs, locals, t, o));
+                push(i, EKind::Ret(r));
+                i += 1;
+            }
+            GOp::ScopeBegin(children) => {
+                // find the matching ScopeEnd
+                let mut depth = 0usize;
+                let mut end = i + 1;
+                while end < to {
+                    match &ops[end] {
+                        GOp::ScopeBegin(_) => depth += 1,
+                        GOp::ScopeEnd => {
+                            if depth == 0 {
+                                break;
+                            }
+                            depth -= 1;
+                        }
+                        _ => {}
+                    }
+                    end += 1;
+                }
+                assert!(end < to, "ScopeBegin without ScopeEnd");
+                let begin = i;
+                shuttle::thread::scope(|s| {
+                    for ch in children {
+                        let ctx2 = ctx.clone();
+                        let ch = *ch;
+                        let h = s.spawn(move || {
+                            let ctx2 = ctx2;
+                            run_thread::<F>(ctx2, ch)
+                        });
+                        let tid: usize = h.thread().id().into();
+                        F::on_spawn(&c.objs, ch, h.thread());
+                        push(begin, EKind::ChildTask2(ch, tid));
+                    }
+                    push(begin, EKind::Ret(GRes::Unit));
+                    run_ops::<F>(ctx, t, locals, begin + 1, end, push);
+                    push(end, EKind::Call);
+                });
+                push(end, EKind::Ret(GRes::Unit));
+                i = end + 1;
+            }
+            GOp::ScopeEnd => unreachable!("ScopeEnd is consumed by its ScopeBegin"),
+        }
     }
-    push(ops.len(), EKind::End);
-    F::end_thread(&c.objs, locals, t);
 }
 
 #[derive(Clone, Debug, PartialEq, Eq, Hash, PartialOrd, Ord)]
@@ -206,6 +324,7 @@ pub enum Ending {
 }
 
 pub struct ExecRecord<R> {
+    pub aux: Vec<AuxEntry>,
     pub log: Vec<Entry<R>>,
     pub path: Vec<Node>,
     pub raw_ending: RawEnding,
@@ -252,12 +371,21 @@ pub fn base_config() -> Config {
 }
 
 pub type Logs<R> = Rc<RefCell<Vec<Vec<Entry<R>>>>>;
+pub type AuxLogs = Rc<RefCell<Vec<Vec<AuxEntry>>>>;
 
-fn make_body<F: Family>(prog: &Arc<SS<Program<F>>>, logs: &Logs<F::Res>) -> impl Fn() + Send + Sync + 'static {
+fn make_body<F: Family>(prog: &Arc<SS<Program<F>>>, logs: &Logs<F::Res>, auxs: &AuxLogs) -> impl Fn() + Send + Sync + 'static {
     let prog = prog.clone();
     let logs = SS(logs.clone());
+    let auxs = SS(auxs.clone());
     move || {
         let n = prog.get().threads.len();
+        // auxiliary events recorded since the previous body started belong to the previous execution
+        // (thread-local destructors of its main thread run after the body returns)
+        let prev = AUX.with(|a| std::mem::take(&mut *a.borrow_mut()));
+        if !logs.get().borrow().is_empty() {
+            auxs.get().borrow_mut().push(prev);
+        }
+        MAIN_LOG_LEN.with(|l| l.set(0));
         logs.get().borrow_mut().push(Vec::new());
         let ctx = Arc::new(SS(Ctx::<F> {
             prog: prog.clone(),
@@ -289,7 +417,9 @@ pub fn run_once<F: Family, S: shuttle_engine::scheduler::Scheduler + 'static>(
     config: &Config,
 ) -> (Vec<Entry<F::Res>>, RawEnding) {
     let logs: Logs<F::Res> = Rc::new(RefCell::new(Vec::new()));
-    let body = make_body::<F>(prog, &logs);
+    let auxs: AuxLogs = Rc::new(RefCell::new(Vec::new()));
+    AUX.with(|a| a.borrow_mut().clear());
+    let body = make_body::<F>(prog, &logs, &auxs);
     let r = catch_unwind(AssertUnwindSafe(|| {
         Runner::new(sched, config.clone()).run(body);
     }));
@@ -322,8 +452,10 @@ pub fn explore_program<F: Family>(
     let config = base_config();
     let mut capped = false;
     let logs: Logs<F::Res> = Rc::new(RefCell::new(Vec::new()));
+    let auxs: AuxLogs = Rc::new(RefCell::new(Vec::new()));
     loop {
-        let body = make_body::<F>(prog, &logs);
+        AUX.with(|a| a.borrow_mut().clear());
+        let body = make_body::<F>(prog, &logs, &auxs);
         let r = catch_unwind(AssertUnwindSafe(|| {
             Runner::new(ex.handle(), config.clone()).run(body);
         }));
@@ -334,6 +466,12 @@ pub fn explore_program<F: Family>(
         }
         let fin = ex.drain_finished();
         let ls: Vec<Vec<Entry<F::Res>>> = std::mem::take(&mut *logs.borrow_mut());
+        let last_aux = AUX.with(|a| std::mem::take(&mut *a.borrow_mut()));
+        let mut axs: Vec<Vec<AuxEntry>> = std::mem::take(&mut *auxs.borrow_mut());
+        axs.push(last_aux);
+        if axs.len() != ls.len() {
+            return Err(format!("aux log count {} != execution count {}", axs.len(), ls.len()));
+        }
         if fin.len() != ls.len() {
             return Err(format!(
                 "explorer finished {} executions but {} bodies ran — program {}",
@@ -343,7 +481,7 @@ pub fn explore_program<F: Family>(
             ));
         }
         let nfin = fin.len();
-        for (i, ((path, stopped), log)) in fin.into_iter().zip(ls.into_iter()).enumerate() {
+        for (i, (((path, stopped), log), aux)) in fin.into_iter().zip(ls.into_iter()).zip(axs.into_iter()).enumerate() {
             let raw = if i + 1 == nfin && last_ending != RawEnding::Ok {
                 last_ending.clone()
             } else if stopped {
@@ -352,6 +490,7 @@ pub fn explore_program<F: Family>(
                 RawEnding::Ok
             };
             let rec = ExecRecord {
+                aux,
                 log,
                 path,
                 raw_ending: raw,
@@ -504,6 +643,23 @@ fn g_steps_raw<F: Family>(p: &Program<F>, s: &GState<F>, t: usize, strict: bool)
                 out.push((false, Label::Ret(pc, GRes::Joined(true)), done(s, GRes::Joined(true))));
             }
         }
+        GOp::ScopeBegin(children) => {
+            // scoped spawns happen one by one (each is a scheduling point), then the body starts
+            let ph = s.th[t].phase as usize;
+            if ph < children.len() {
+                let mut n = s.clone();
+                n.th[children[ph]].st = St::Active;
+                n.th[t].phase += 1;
+                out.push((false, Label::Eps, n));
+            } else {
+                out.push((false, Label::Ret(pc, GRes::Unit), done(s, GRes::Unit)));
+            }
+        }
+        GOp::ScopeEnd => {
+            if scope_children(ops, pc).iter().all(|c| s.th[*c].st == St::Finished) {
+                out.push((false, Label::Ret(pc, GRes::Unit), done(s, GRes::Unit)));
+            }
+        }
         GOp::Op(o) => {
             for st in F::m_step(&s.m, t, o, s.th[t].phase, strict) {
                 match st {
@@ -538,6 +694,26 @@ fn g_steps_raw<F: Family>(p: &Program<F>, s: &GState<F>, t: usize, strict: bool)
 /// Able to progress in the ordinary sense (spurious wake-ups do not count).
 pub fn g_enabled<F: Family>(p: &Program<F>, s: &GState<F>, t: usize, strict: bool) -> bool {
     !g_steps_ordinary(p, s, t, strict).is_empty()
+}
+
+/// Children of the scope whose `ScopeEnd` is at index `end`.
+pub fn scope_children<O>(ops: &[GOp<O>], end: usize) -> Vec<usize> {
+    let mut depth = 0usize;
+    let mut i = end;
+    while i > 0 {
+        i -= 1;
+        match &ops[i] {
+            GOp::ScopeEnd => depth += 1,
+            GOp::ScopeBegin(ch) => {
+                if depth == 0 {
+                    return ch.clone();
+                }
+                depth -= 1;
+            }
+            _ => {}
+        }
+    }
+    panic!("ScopeEnd without ScopeBegin")
 }
 
 #[derive(Clone, Debug, PartialEq, Eq, Hash, PartialOrd, Ord)]
@@ -851,6 +1027,7 @@ pub fn cosim<F: Family>(p: &Program<F>, mc: &mut MCache<F>, rec: &ExecRecord<F::
     let mut res: Vec<Vec<GRes<F::Res>>> = vec![Vec::new(); n];
     let mut called = vec![0usize; n];
     let mut pcs = vec![0usize; n]; // ops returned so far per thread (uniform over candidates)
+    let mut started = vec![false; n];
     let mut cands: u32 = mc.init_set;
     let mut fail: Option<CosimFail> = None;
     let mut li = 0usize;
@@ -896,7 +1073,16 @@ pub fn cosim<F: Family>(p: &Program<F>, mc: &mut MCache<F>, rec: &ExecRecord<F::
                 }
             }
             match &e.kind {
+                EKind::Start if started[e.thread] => {
+                    fail = Some(CosimFail {
+                        kind: FailKind::Contract,
+                        culprit: "closure-ran-twice".into(),
+                        at_decision: stamp,
+                        what: format!("thread {}'s closure was started a second time", e.thread),
+                    });
+                }
                 EKind::Start => {
+                    started[e.thread] = true;
                     if let Some(prev) = task_of[e.thread] {
                         if prev != e.task {
                             fail = Some(CosimFail {
@@ -919,6 +1105,18 @@ pub fn cosim<F: Family>(p: &Program<F>, mc: &mut MCache<F>, rec: &ExecRecord<F::
                         task_of[*c] = Some(*tid);
                         thread_of.insert(*tid, *c);
                     }
+                }
+                EKind::ChildTask2(c, tid) => {
+                    task_of[*c] = Some(*tid);
+                    thread_of.insert(*tid, *c);
+                }
+                EKind::Ret(_) if e.op != pcs[e.thread] => {
+                    fail = Some(CosimFail {
+                        kind: FailKind::Contract,
+                        culprit: "program-order".into(),
+                        at_decision: stamp,
+                        what: format!("thread {} returned from op {} but its next op is {} (closure ran twice or out of order)", e.thread, e.op, pcs[e.thread]),
+                    });
                 }
                 EKind::Ret(r) => {
                     res[e.thread].push(r.clone());
@@ -1115,6 +1313,8 @@ impl<O: Debug> Debug for OpDbg<'_, O> {
             GOp::Op(o) => o.fmt(f),
             GOp::Spawn(_) => write!(f, "Spawn"),
             GOp::Join(_) => write!(f, "Join"),
+            GOp::ScopeBegin(_) => write!(f, "ScopeBegin"),
+            GOp::ScopeEnd => write!(f, "ScopeEnd"),
         }
     }
 }
